@@ -450,6 +450,24 @@ def stepDial (s : St) (impl : String) : St × StepOut :=
        (match s.tpids with
         | some l => failIf (!isCanonSortOf l canonWire) "ids_reported_eq_wire" cls s!"TransportParameterIDs said {fmtNats l}, wire ids {fmtNats canonWire}"
         | none => []))
+  -- the connection's logged record of its own parameters against the wire
+  let recS := (field impl "rec=").getD "-"
+  let recFails := match ws, recS.splitOn ";" with
+    | some ws, [nums, dm, rscid] =>
+      let inums := (nums.splitOn ",").map (·.toInt?.getD 0)
+      (numIDs.zip inums).flatMap (fun (id, got) =>
+        match lastWire ws id with
+        | some v => failIf (got != toInt64 (if id == 1 || id == 11 then numOf v * 1000000 else numOf v)) "own_record_equals_wire" cls
+            s!"the connection logs {got} for parameter {id}, the wire carries {numOf v}"
+        | none => failIf (got != 0) "own_record_equals_wire" cls s!"the connection logs {got} for parameter {id}, the wire has no such parameter") ++
+      failIf ((dm == "1") != (ws.any fun w => w.1 == 12)) "own_record_equals_wire" cls s!"disable_active_migration logged {dm}, wire ids {fmtNats (ws.map (·.1))}" ++
+      (if s.list.all (fun t => t.p.id != 15 || t.p.typed) then
+        (match parseHex rscid, lastWire ws 15 with
+         | some r, some v => failIf (r != v) "own_record_equals_wire" cls s!"the connection logs initial_source_connection_id {fmtHex r}, the wire carries {fmtHex v}"
+         | some r, none => failIf (r != scid) "own_record_equals_wire" cls s!"the connection logs initial_source_connection_id {fmtHex r}, the packet header has {fmtHex scid}"
+         | none, _ => [])
+       else [])
+    | _, _ => []
   let plumbing :=
     failIf (cs.map canonU16 != s.cs.map canonU16) "clienthello_is_spec" "-" s!"cipher suites {fmtNats cs}, spec {fmtNats s.cs}" ++
     failIf (exts.map canonU16 != sexts.map canonU16) "clienthello_is_spec" "-" s!"extension order {fmtNats exts}, spec {fmtNats sexts}"
@@ -474,7 +492,7 @@ def stepDial (s : St) (impl : String) : St × StepOut :=
     (if s.tpids.isSome then ["dial:after-tpids"] else []) ++
     (if !scid.isEmpty then ["dial:scid"] else []) ++
     (if fp != "-" && !s.custom && s.sup.isEmpty && recorded s.base then ["dial:fp-checked"] else [])
-  (g, { model := impl, tags := tags, fails := wireFails ++ plumbing ++ stab ++ rec_ })
+  (g, { model := impl, tags := tags, fails := wireFails ++ recFails ++ plumbing ++ stab ++ rec_ })
 
 def stepDist (name nS NS impl : String) : StepOut :=
   let n := natOf nS
